@@ -644,16 +644,26 @@ def run_d12(res):
     check_trace_O(res, box, {"stream": "d12", "services": [("s0._a._tcp.local.", "h0.local.", 3, 3)], "actions": box["actions"]})
 
 
+class _Result(C.Result):
+    """keeps at most three cases per signature so that one (known) finding cannot crowd out another violation"""
+
+    def violate(self, sig, what, case):
+        n = self.dist.get("sig:" + sig, 0)
+        self.dist["sig:" + sig] = n + 1
+        if n < 3:
+            super().violate(sig, what, case)
+
+
 def run(ctx):
-    res = C.Result("C12")
+    res = _Result("C12")
     res.rule = ("q: op sequences (2..30 ops; gaps on the grid {0,1,20,60,119,120,121,200,380,499,500,501,880,999,1000,1001,1120,1200} and random; draws at 20/21/119/120 "
                 "and random; stale stamps 0..620 ms; adds at the instant of a due timer) on both queue parameterisations; "
                 "cls: full grid probe x source x QU x question count x first type x TTL {1..5,120,4500} x age {none, 0, 1, around 250/500/750/1000/1250 ms, ttl/4 of 120 and 4500}; "
                 "tr: responder scenarios (1..3 services, TTLs incl. 1..5 s; 1..8 queries, 1..3 questions, QU/QM, known answers, probes, legacy port, truncated trains of 1..4 "
                 "packets identical/differing from one or two sources, arrivals on the grid or aimed at 999/1000/1001 ms and ttl/4 after the last multicast, cache pokes at the same "
                 "boundaries, library jitter biased to both ends); non-trivial = distinct shape (block kinds, #assemblies, #multicasts) with at least one reply")
-    bq = C.Budget(ctx["tier"], 1500, 40000).n
-    bt = C.Budget(ctx["tier"], 260, 6000).n
+    bq = C.Budget(ctx["tier"], 6000, 120000).n
+    bt = C.Budget(ctx["tier"], 2000, 40000).n
     if ctx["widened"]:
         bq *= 3
         bt *= 3
@@ -666,7 +676,7 @@ def run(ctx):
 
 def replay(body):
     case = body.get("case", {})
-    res = C.Result("C12")
+    res = _Result("C12")
     ctx = {"tier": "quick", "seed": case.get("seed", 0), "widened": False, "driver_ok": C.DRIVER.exists(), "stages": {}}
     if case.get("stream") == "tr":
         run_trace_stream(ctx, res, 0, only=[(case["seed"], case["scenario"])])
